@@ -823,7 +823,9 @@ BINARY(andq,pand,0xdb)
 BINARY(andnq,pandn,0xdf)
 BINARY(orq,por,0xeb)
 BINARY(xorq,pxor,0xef)
+#ifndef MMX
 BINARY(cmpgtsq,pcmpgtq,0x3837)
+#endif
 
 #ifndef MMX
 BINARY(maxsb,pmaxsb,0x383c)
@@ -3492,13 +3494,17 @@ orc_compiler_sse_register_rules (OrcTarget *target)
   REG(cmpeqq);
 #endif
 
-  /* SSE 4.2 -- no rules */
+  /* SSE 4.2 */
+#ifndef MMX
+  /* pcmpgtq has no form on MMX registers */
   rule_set = orc_rule_set_new (orc_opcode_set_get("sys"), target,
       ORC_TARGET_SSE_SSE4_2);
 
   REG(cmpgtsq);
-#ifndef MMX
-  /* uses pcmpgtq, which is SSE 4.2 */
+
+  /* uses pcmpgtq, which is SSE 4.2, and blendvpd, which is SSE 4.1 */
+  rule_set = orc_rule_set_new (orc_opcode_set_get("sys"), target,
+      ORC_TARGET_SSE_SSE4_1 | ORC_TARGET_SSE_SSE4_2);
   orc_rule_register (rule_set, "convsssql", sse_rule_convsssql_sse41, NULL);
 #endif
 
